@@ -67,6 +67,18 @@ def fn_ranges(text):
         while j < n:
             if m[j] == CODE:
                 if text[j] == '{':
+                    # a brace block inside a spec clause (struct pattern, `==> { .. }`, match) is followed by an operator or a
+                    # comma; the function body is followed by the next item
+                    try:
+                        c_ = match_close(text, m, j)
+                    except ValueError:
+                        break
+                    k_ = c_ + 1
+                    while k_ < n and (text[k_].isspace() or m[k_] != CODE):
+                        k_ += 1
+                    if k_ < n and text[k_] in ',|&=)+-*/.;<>?:' and not text.startswith('//', k_):
+                        j = c_ + 1
+                        continue
                     ok = True
                     break
                 if text[j] == ';':
